@@ -41,7 +41,7 @@ def main():
     k = 1
     while os.path.exists(f'{outdir}/patch_{k}.diff'):
         patch, dm = f'{outdir}/patch_{k}.diff', f'{outdir}/demo_{k}.py'
-        meta = dict(property=pid, k=k, checks={})
+        meta = dict(property=pid, k=k + int(os.environ.get('SEEDED_OFFSET', '0')), checks={})
         sh('git checkout -- . && git clean -fdq', cwd=wt)
         rc0, _ = demo(wt, dm)
         rca, outa = sh(f'git apply {patch}', cwd=wt)
@@ -102,7 +102,8 @@ def main():
                 sh('git checkout -- .', cwd=target)
                 for ep, txt in saved_ev.items():
                     open(ep, 'w').write(txt)
-        dst = f'{VERIF}/seeded/{pid}-{k}'
+        kk = k + int(os.environ.get('SEEDED_OFFSET', '0'))
+        dst = f'{VERIF}/seeded/{pid}-{kk}'
         os.makedirs(dst, exist_ok=True)
         shutil.copy(patch, f'{dst}/patch.diff')
         shutil.copy(dm, f'{dst}/demo.py')
@@ -114,7 +115,7 @@ def main():
         json.dump(meta, open(f'{dst}/meta.json', 'w'), indent=1)
         det = {c: (v['rc'], len(v['violation_lines']))
                for c, v in meta['checks'].items()}
-        print(f'{pid}-{k}: confirmed={ok} checks={det}', flush=True)
+        print(f'{pid}-{kk}: confirmed={ok} checks={det}', flush=True)
         k += 1
 
 
